@@ -157,6 +157,8 @@ type Op struct {
 }
 
 type Res struct {
+	Tree  []map[string]interface{}
+	Vals  []interface{}
 	Msg   string
 	C     string
 	Id    string
@@ -206,6 +208,24 @@ func deepCopy(x interface{}) interface{} {
 		panic(err)
 	}
 	return y
+}
+
+// requestion puts the "?" back on the names of the variables that an action
+// of the {tag, b: Env.bindings} family reports (scripts see them without it).
+func requestion(v interface{}) interface{} {
+	m, ok := v.(map[string]interface{})
+	if !ok {
+		return v
+	}
+	b, ok := m["b"].(map[string]interface{})
+	if !ok {
+		return v
+	}
+	nb := map[string]interface{}{}
+	for k, x := range b {
+		nb["?"+k] = x
+	}
+	return map[string]interface{}{"tag": m["tag"], "b": nb}
 }
 
 func copyMap(m map[string]interface{}) map[string]interface{} {
@@ -354,6 +374,27 @@ func (w *World) Do(op Op) Res {
 				}
 				res.Found = append(res.Found, map[string]interface{}{"id": er.Rule.Id, "bss": bss,
 					"body": w.R.T.Encode(nil)})
+				for _, erc := range er.Children {
+					node := map[string]interface{}{"id": er.Rule.Id,
+						"wb": w.R.T.EncodeBindings(deepCopy(map[string]interface{}(erc.Bindings)).(map[string]interface{})),
+						"c":  "ok"}
+					if erc.Disposition == nil || erc.Disposition.Msg != "complete" {
+						node["c"] = "err"
+					}
+					execs := make([]interface{}, 0)
+					for _, era := range erc.Children {
+						code, _ := era.Act.Code.(string)
+						ok := era.Disposition != nil && era.Disposition.Msg == "complete"
+						execs = append(execs, map[string]interface{}{
+							"b":    w.R.T.EncodeBindings(deepCopy(map[string]interface{}(era.Bindings)).(map[string]interface{})),
+							"code": code, "ok": ok, "val": w.R.T.Encode(requestion(deepCopy(era.Value)))})
+					}
+					node["execs"] = execs
+					res.Tree = append(res.Tree, node)
+				}
+			}
+			for _, v := range fr.Values {
+				res.Vals = append(res.Vals, w.R.T.Encode(requestion(deepCopy(v))))
 			}
 		}
 	case "SetReadOnly":
@@ -401,7 +442,7 @@ func (w *World) Do(op Op) Res {
 		"ev": "op", "op": op.Op, "loc": op.Loc, "id": op.Id, "rid": res.Id, "val": t.Encode(v),
 		"inh": op.Inh, "wk": op.WK, "rk": op.RK, "now": now, "flag": op.Flag, "names": names,
 		"res": map[string]interface{}{"c": res.C, "id": res.Id, "val": t.Encode(res.Val),
-			"found": found, "ids": ids, "n": res.N},
+			"found": found, "ids": ids, "n": res.N, "tree": nonNilMaps(res.Tree), "vals": nonNil(res.Vals)},
 		"disk": w.diskIds(), "msg": res.Msg,
 	}
 	if after != now {
@@ -409,6 +450,20 @@ func (w *World) Do(op Op) Res {
 	}
 	w.Events = append(w.Events, ev)
 	return res
+}
+
+func nonNil(xs []interface{}) []interface{} {
+	if xs == nil {
+		return []interface{}{}
+	}
+	return xs
+}
+
+func nonNilMaps(xs []map[string]interface{}) []map[string]interface{} {
+	if xs == nil {
+		return []map[string]interface{}{}
+	}
+	return xs
 }
 
 // Void reports whether any operation straddled a second boundary.
